@@ -13,9 +13,9 @@ func init() {
 	propFuncs["C14"] = propC14
 	propInfos["C14"] = &PropInfo{
 		Level:   "other",
-		Explain: "Structural necessary conditions decided statically (DESIGN.md §5 C14), for every type of the module implementing stats.Histogram: C-once — every path through Add performs exactly one `counter++` and no other store; guard/counter agreement — the reach condition of the increment of the field Counts() returns as `under` is bin<0, of `over` is bin>=len(bins), of bins[bin] the complement (so 0<=bin<len(bins) at the indexed increment); D-floor — the bin index conversion has floor semantics (integral or non-negative operand), so a value just below the first edge gets a negative bin; B — BinToValue(b(x)) = x for the pre-floor bin function b with the constructor's field definitions substituted (bin function and edges are inverse), constructor fields, HistogramIQR = Q(0.75)-Q(0.25), and the total/goal/interpolation formulas of HistogramQuantile.",
+		Explain: "Structural necessary conditions decided statically (DESIGN.md §5 C14), for every type of the module implementing stats.Histogram: C-once — every path through Add performs exactly one `counter++` and no other store; guard/counter agreement — the reach condition of the increment of the field Counts() returns as `under` is bin<0, of `over` is bin>=len(bins), of bins[bin] the complement (so 0<=bin<len(bins) at the indexed increment); D-floor — the bin index conversion has floor semantics (integral or non-negative operand), so a value just below the first edge gets a negative bin; B — BinToValue(b(x)) = x for the pre-floor bin function b with the constructor's field definitions substituted (bin function and edges are inverse), constructor fields, HistogramIQR = Q(0.75)-Q(0.25), and the total/goal/interpolation formulas of HistogramQuantile, including that the rank walked over the bins is uint(total*q) minus the under count and that the walk stops in the first bin whose count exceeds the remaining rank.",
 		Assume:  []string{"A4 reals", "q in [0,1] for HistogramQuantile (precondition)"},
-		Undec:   []string{"HistogramQuantile's rank walk: which sample the goal denotes, NaN conditions (under count is compared but never subtracted; q=1 reaches the final panic) — statements about cumulative run-time counts", "monotonicity of BinToValue and of the quantile in q"},
+		Undec:   []string{"HistogramQuantile's boundary conventions: goal == under gives NaN, q=1 without over-flow reaches the final panic (the doc comment and the strict walk do not settle the intended rank origin)", "monotonicity of BinToValue and of the quantile in q"},
 	}
 }
 
@@ -322,8 +322,22 @@ func propC14(a *Analysis, r *Registry) {
 			e2.Set("goal", goal, nil)
 			e2.Set("count", count, nil)
 			b.Eq("B-C14 formula", name+"/goal-step", a.W.InstrPos(call), gnext, e2, "goal-count")
-			// ginit = toint(total*q): total is a loop-header phi
+			// the rank carried into the walk over the bins must be the rank among the BINNED samples:
+			// uint(total*q) minus the under count (the under-flow samples are the smallest ones, and the
+			// bins' counts are accumulated from the first bin). Without the subtraction the walk lands in a
+			// later bin than the one holding the sample, or runs off the end.
+			under := e2.MustParse("hist.Counts()#0")
 			at := ginit.SingleAtom()
+			if sum := ginit.Add(under).SingleAtom(); sum != nil && sum.Name == "toint" {
+				at = sum
+				r.OK("B-C14 formula", name+"/walk-start", b.pos(fn), "the walk starts at uint(total*q) - under: the rank among the binned samples")
+			} else if at != nil && at.Name == "toint" {
+				r.Fail("B-C14 formula", name+"/walk-start[code: walk starts at uint(total*q), under count compared but not subtracted]", b.pos(fn),
+					"the rank walked over the bins is uint(total*q), not uint(total*q) - under: with a non-zero under count the value returned is not in the bin holding that sample (NewLinearHist(0,10,10) with -1,-1,0.5,0.6,5.5: q=0.7 panics \"goal count not reached\" instead of returning a value in bin 0)")
+			} else {
+				r.Fail("B-C14 formula", name+"/walk-start", b.pos(fn), "the rank walked over the bins is neither uint(total*q) - under nor uint(total*q): "+clip(ginit.String(), 200))
+				return
+			}
 			if at == nil || at.Name != "toint" {
 				r.Fail("B-C14 formula", name+"/goal-init", b.pos(fn), "goal is not initialised as uint(total*q): "+clip(ginit.String(), 200))
 				return
